@@ -107,6 +107,15 @@ CHECKS = {
         "numba code generation trusted once indices are in range; kernels rebound by name in the harness process.",
         "DESIGN.md §2 C17",
     ),
+    "C16": (
+        "model_checking",
+        "exhaustive lattice: conformal grids x subgrids x position lattice for xy2ll/ll2xy; all 2^9 masks x position lattice x substitute values for sample2D; Model runs for release/output lon/lat",
+        "Round trip on every position of a 0.37 lattice of the valid region of polar-stereographic grids (3 resolutions x 4 rotations x 2 sizes x 10 subgrids) "
+        "to the solver's own tolerance; released-by-lon/lat start positions and output lon/lat equal the bilinear interpolation of the global arrays; "
+        "sample2D equals a reference sampler on every mask of a 3x3 grid, inside/outside positions, undef and outside values incl. 0.0.",
+        "Spherical polar-stereographic grids up to 40x30; solver tolerance 1e-7 deg^2 as the statement allows.",
+        "DESIGN.md §2 C16",
+    ),
 }
 
 PENDING_REASON = "check not built yet (work in progress, see DESIGN.md §11 build order)"
